@@ -22,6 +22,8 @@ MINI = {
     "anyall": ([IN["x"], IN["y"], ("decl", "Bundle", "bb", BUN), ("decl", "Signal", "r", B(">", ("any", V("bb")), I(2)))], ["x", "y"], ["r"], "value"),
     "entity": ([IN["a"], ("place", "lamp", "small-lamp", I(10), I(20), None), ("prop", "lamp", "enable", B(">", V("a"), I(2)))], ["a"], [], "value"),
     "entity-arith": ([IN["a"], ("place", "lamp", "inserter", I(10), I(22), None), ("prop", "lamp", "enable", B(">", B("*", V("a"), I(2)), I(5)))], ["a"], [], "value"),
+    # a consumer 40 tiles from everything else: needs relay poles
+    "entity-far": ([IN["a"], ("place", "lamp", "small-lamp", I(48), I(3), None), ("prop", "lamp", "enable", B(">", B("+", V("a"), I(1)), I(3)))], ["a"], [], "value"),
     "cell": ([IN["a"], IN["t"], ("mem", "m", "signal-M"), ("write", "m", ("proj", V("a"), "signal-M"), B(">", V("t"), I(0))),
               ("decl", "Signal", "r", B("+", ("read", "m"), I(1)))], ["a", "t"], ["r"], "stateful"),
     "latch": ([IN["a"], ("mem", "l", "signal-L"), ("latch", "l", I(1), B("<", V("a"), I(2)), B(">=", V("a"), I(3)), "sr"),
@@ -57,7 +59,7 @@ class C12(core.Check):
     pid = "C12"
     level = "model_checking"
     timeout = 400
-    rule = ("all ordered pairs (P, Q) of a 14-program corpus that reuse the same signal names and constants, names made "
+    rule = ("all ordered pairs (P, Q) of a 15-program corpus (incl. a consumer 40 tiles away, also built with medium poles / substations) that reuse the same signal names and constants, names made "
             "disjoint, x order-preserving interleavings of their statements (all of them in the thorough tier, 6 spread "
             "over the whole set in the quick tier); P's outputs and entity conditions in build(P;Q) are compared with "
             "build(P) for the full product of P's and Q's input values; stateful P by lock-step BFS over events on P's "
@@ -78,6 +80,9 @@ class C12(core.Check):
                 for k, prog in enumerate(interleavings(p[0], q[0], lim)):
                     out.append({"P": pn, "Q": qn, "k": k, "stmts": prog, "p_stmts": p[0], "p_inputs": p[1], "q_inputs": q[1],
                                 "p_outputs": p[2], "mode": p[3]})
+                    if "entity" in pn and "entity" in qn and k < 2:
+                        for poles in ("medium", "substation"):
+                            out.append(dict(out[-1 if poles == "medium" else -2], poles=poles))
         if tier == "thorough":
             # triples: P with two others
             for pn in ("arith", "same-type", "each", "entity"):
@@ -94,8 +99,11 @@ class C12(core.Check):
         both = gen.thaw(case["stmts"])
         alone = gen.thaw(case["p_stmts"])
         pin, qin = case["p_inputs"], case["q_inputs"]
-        A = {"stmts": both, "inputs": pin + qin, "opts": {"optimize": True}}
-        Bs = {"stmts": alone, "inputs": pin, "opts": {"optimize": True}}
+        opts = {"optimize": True}
+        if case.get("poles"):
+            opts["poles"] = case["poles"]
+        A = {"stmts": both, "inputs": pin + qin, "opts": opts}
+        Bs = {"stmts": alone, "inputs": pin, "opts": opts}
         if case["mode"].startswith("stateful"):
             dom = {i: [0, 1, 3] for i in pin + qin}
             r = explore.run_product_bfs(A, Bs, pin + qin, dom, case["p_outputs"], cap=1500, subset=True)
